@@ -315,7 +315,27 @@ theorem gbk_ni_lost_pinned :
 example : ¬ CodecChar (decMulti true exMb) ([0xC4, 0xE3], 0x4F60) :=
   multibyte_law_fails_pinned exMb (by decide) (by decide) _ (by decide) (by decide)
 
-example : TblByte [0x20AC] 128 := by decide
+/-- a one-entry high half (byte 0x80 ↦ "€"): `€a€` in reads of 1 and 2 bytes -/
+example : feedAll (exCfg (decTable [0x20AC])) {} [] [[128], [97, 128]] =
+    ⟨[runeEvent 0x20AC, runeEvent 97, runeEvent 0x20AC], {}, [], false⟩ :=
+  table_text (exCfg (decTable [0x20AC])) [0x20AC] rfl (by decide) {} rfl [128, 97, 128] (by decide) _ (by decide)
+
+/-- typed text, a focus-out report, a paste and a focus-in report in one stream, split inside every item -/
+example : feedAll (exCfg decUtf8) {} [] [[0xC3], [0xA9, 27, 91], [79, 27, 91, 50, 48, 48], [126, 120, 27, 91, 50, 48, 49], [126, 27], [91, 73]] =
+    ⟨[runeEvent 0xE9, .focus false, .paste true, runeEvent 120, .paste false, .focus true], {}, [], false⟩ :=
+  stream_delivery (exCfg decUtf8) (by decide) {} rfl
+    [.char ([0xC3, 0xA9], 0xE9), .focusOut, .pasteStart, .char ([120], 120), .pasteEnd, .focusIn]
+    (by
+      intro i hi
+      simp at hi
+      rcases hi with rfl | rfl | rfl | rfl | rfl | rfl
+      · exact Or.inr (utf8_codecChar 0xE9 (by decide) (by decide) (by decide) (by decide))
+      · show focusClear _ = true; decide
+      · show pasteKeys _ = true; decide
+      · exact Or.inl ⟨120, by decide, by decide, rfl⟩
+      · show pasteKeys _ = true; decide
+      · show focusClear _ = true; decide)
+    _ (by decide)
 
 /-! ### database layer: the key-table conditions hold for every entry (kernel evaluation over `Tcell.Gen`) -/
 
@@ -353,5 +373,44 @@ theorem rxvt_focus_out_shadowed :
     let cfg : Cfg := { exCfg decUtf8 with keys := ⟨[27, 91, 79, 97], keyUp, modCtrl⟩ :: (exCfg decUtf8).keys }
     feedAll cfg {} [] [[27, 91, 79, 97]] = ⟨[.key keyUp 0 modCtrl], {}, [], false⟩ ∧
     feedAll cfg {} [] [[27, 91, 79], [97]] = ⟨[.focus false, runeEvent 97], {}, [], false⟩ := by decide
+
+/-- **Every database entry, UTF-8.**  For the key table the real constructor builds for any entry of the terminal
+database, whatever the mouse / OSC 52 configuration and screen size: UTF-8 text is delivered rune for rune under
+every partition. -/
+theorem db_utf8_text (p : Terminfo × List Gen.KeyRow) (hp : p ∈ Gen.dbTables) (cfg : Cfg)
+    (hkeys : cfg.keys = toTable p.2) (hdec : cfg.dec = decUtf8) (st : PState) (hs : st.escaped = false)
+    (runes : List Int) (hr : ∀ r ∈ runes, Utf8TextRune r) (chunks : List Bytes)
+    (hc : chunks.flatten = runes.flatMap Utf8.encode) :
+    feedAll cfg st [] chunks = ⟨runes.map runeEvent, st, [], false⟩ :=
+  utf8_text cfg hdec (by rw [hkeys]; exact (List.all_eq_true.mp db_keys_ascii) p hp) st hs runes hr chunks hc
+
+/-- **Every database entry with bracketed paste, UTF-8.** -/
+theorem db_utf8_paste (p : Terminfo × List Gen.KeyRow) (hp : p ∈ Gen.dbTables) (hpe : pasteEnabled p.1 = true) (cfg : Cfg)
+    (hkeys : cfg.keys = toTable p.2) (hdec : cfg.dec = decUtf8) (st : PState) (hs : st.escaped = false)
+    (runes : List Int) (hr : ∀ r ∈ runes, Utf8TextRune r) (chunks : List Bytes)
+    (hc : chunks.flatten = pasteStartSeq ++ runes.flatMap Utf8.encode ++ pasteEndSeq) :
+    feedAll cfg st [] chunks = ⟨[.paste true] ++ runes.map runeEvent ++ [.paste false], st, [], false⟩ := by
+  have hk : keysAscii cfg.keys = true := by rw [hkeys]; exact (List.all_eq_true.mp db_keys_ascii) p hp
+  have hpk : pasteKeys cfg.keys = true := by
+    have := (List.all_eq_true.mp db_paste_keys) p hp
+    rw [hkeys]
+    simpa [hpe] using this
+  apply paste_bracket cfg Utf8.encode _ (hdec ▸ utf8_laws) hk hpk st hs runes
+  · intro r hr'
+    obtain ⟨h1, h2, h3, h4, h5⟩ := hr r hr'
+    by_cases ha : r ≤ 126
+    · exact Or.inl ⟨h1, ha⟩
+    · exact Or.inr ⟨by omega, h3, h4, h5⟩
+  · rw [hc]
+    congr 2
+    unfold encText
+    apply flatMap_ext
+    intro r _
+    by_cases ha : 32 ≤ r ∧ r ≤ 126
+    · simp [encChar, ha, encChar_utf8 r ha]
+    · simp [encChar, ha]
+
+example : ∃ p ∈ Gen.dbTables, pasteEnabled p.1 = true ∧ focusEnabled p.1 = true ∧ focusClear (toTable p.2) = true := by
+  decide +kernel
 
 end Tcell.Props.C11
